@@ -425,7 +425,10 @@ fn row_to_json(row: Row) -> JsonValue {
 
 fn write_query_contains_write(cypher: &str) -> ApiResult<bool> {
     let trimmed = cypher.trim_start();
-    if trimmed.len() >= 7 && trimmed[..7].eq_ignore_ascii_case("EXPLAIN") {
+    if trimmed
+        .get(..7)
+        .is_some_and(|head| head.eq_ignore_ascii_case("EXPLAIN"))
+    {
         return Ok(false);
     }
     let parsed =
